@@ -682,6 +682,7 @@ def run(res, tier):
     res.rule("SC-10", "a guarded operation called on what is left after a take of its caller does not demand the caller's own companion query again")
     res.rule("SC-11", "column-count arguments (declared names containing `col` / `rank`) of size queries, bytes_of and takes are not integer literals >= 2")
     res.rule("SC-12", "an operation dispatching between scratch-consuming routines on quantities its query also receives is mirrored by a query deciding on the same quantities at the top level")
+    res.rule("SC-14", "a size query with a `threads` parameter multiplies its per-thread query by that parameter itself")
     res.rule("SC-13", "a per-thread length handed to split_mut contains no bare LWE-sized term (not a multiple of the scratch alignment)")
     res.rule("SC-7", "at a size-query call site, a usize argument that the caller knows under the name of one of the query's declared parameters (trait declaration names; the caller's own parameters take the names of its trait declaration) sits in that parameter's position")
     res.rule("SC-6", "a temporary created from a layout literal and handed to a nested operation is declared, in the companion, by the nested query evaluated on a literal with equal fields under the parameter correspondence")
@@ -711,6 +712,8 @@ def run(res, tier):
         res.floor("SC-11", "column-count arguments of size queries / takes", n11, 150)
         n12 = sc12(p, res, pairs)
         res.floor("SC-12", "dispatching operations", n12, 1)
+        n14 = sc14(p, res)
+        res.floor("SC-14", "size queries with a threads parameter", n14, 1)
         n13 = sc13(p, res)
         res.floor("SC-13", "split_mut sites", n13, 2)
         n7 = sc7(p, res)
@@ -826,6 +829,55 @@ def sc13(p, res):
             else:
                 res.ok("SC-13", {"op": f.pretty, "per_thread_query": q.name})
     return n
+
+
+# ------------------------------------------------------------------ SC-14
+def sc14(p, res):
+    """multi-threaded size queries: the operation carves `threads` windows (split_mut(threads, len), preceded by an assertion on `threads * len`) whatever the number of work
+    items, so a size query with a `threads` parameter has to multiply its per-thread query by that very parameter - not by a count derived from it"""
+    n = 0
+
+    def products(poly, out, depth=0):
+        for mono, c in poly.t.items():
+            qs = [a for a in mono if a[0] == "f" and isinstance(a[1], str) and a[1].endswith("_tmp_bytes")]
+            if qs:
+                out.append((qs, [a for a in mono if a not in qs]))
+            for a in mono:
+                if a[0] == "f" and a[1] in ("max", "min") and depth < 4:
+                    for k in a[2]:
+                        products(Poly(dict(k)), out, depth + 1)
+    for f in sorted(p.lib_fns(), key=lambda x: x.uid):
+        if not f.name.endswith("_tmp_bytes") or not f.blocks or not f.uid.startswith(("poulpy_core", "poulpy_bin_fhe", "poulpy_ckks")):
+            continue
+        pn = {v: k for k, v in f.param_names().items()}
+        if "threads" not in pn:
+            continue
+        sym = Sym(f, Flow(f))
+        ret = sym.local(0)
+        prods = []
+        products(ret, prods)
+        at = list(ret.atoms())
+        if len(ret.t) == 1 and len(at) == 1 and at[0][0] == "f" and at[0][1].endswith("_tmp_bytes") and not [x for x in prods if x[1]]:
+            continue  # a forwarder to another query that receives `threads`
+        n += 1
+        th = ("p", pn["threads"], ())
+        counted = [x for x in prods if x[1]]
+        good = [x for x in counted if x[1] == [th]]
+        other = [x for x in counted if x[1] != [th] and not all(a[0] == "const" for a in x[1])]
+        if other:
+            res.bad("SC-14", f.pretty, "threads-multiplier:%s" % other[0][0][0][1],
+                    "%s multiplies the per-thread query %s by `%s` instead of its `threads` parameter: the operation carves (and asserts) `threads` windows whatever the number of work "
+                    "items" % (f.pretty, other[0][0][0][1], " * ".join(fmt_poly_atom(a) for a in other[0][1])), site=f.where())
+        elif not good:
+            res.bad("SC-14", f.pretty, "threads-multiplier:absent", "%s receives `threads` but multiplies no size query by it" % f.pretty, site=f.where())
+        else:
+            res.ok("SC-14", {"query": f.pretty, "per_thread": good[0][0][0][1]})
+    return n
+
+
+def fmt_poly_atom(a):
+    from .sym import fmt_atom
+    return fmt_atom(a)
 
 
 # ------------------------------------------------------------------ SC-12
